@@ -6,6 +6,7 @@ CONSTANTS
   Keys = {"a", "ab", "b"}
   Vals = {"x", "y", ""}
   Prunings <- PruningsSel
+  Strategies = {"nothing", "everything", "syncable", "", "Nothing", "archive"}
   PrunSel = {1, 2, 3, 4, 5, 6, 7, 8, 9, 10, 11, 12, 13}
   MaxVer = 80
   MaxWrites = 3
@@ -16,6 +17,8 @@ CONSTANTS
   CrashPlan = TRUE
   CrashKind = "any"
   TransientFirst = FALSE
+  MaxLoads = 2
+  LoadScope = "any"
   ObsKind = {}
 CONSTRAINT PrintHist
 CHECK_DEADLOCK FALSE
